@@ -167,6 +167,10 @@ def generic_harness_check(ctx, name, rule, assumptions, level="exploration", wor
                 print(f"KNOWN-FINDING: property={ctx.pid} {e['what']}", flush=True)
     dn = len(m["fps"]) + m["distinct_by_construction"]
     timed_out = any(r["timed_out"] for r in results)
+    if not m["samples"]:
+        for v in m["violations"][:2]:
+            if v.get("replay"):
+                m["samples"].append(v["replay"])
     cov = {"evaluations": m["evaluations"], "distinct_nontrivial": dn, "nontrivial_evaluations": m["nontrivial_total"],
            "rule": rule, "samples": m["samples"][:10], "classes": m["classes"], "workers": workers,
            "replay_tier_inputs": nrep, "inconclusive_timeout": timed_out}
